@@ -72,6 +72,28 @@ World ==
    CK("app/args", <<ExprS(App(<<Stage("pa", <<PS(1, StrL("a")), PS(2, StrL("b"))>>), Stage("pb", <<PS(3, StrL("c"))>>)>>)),
                     Def(<<"o", "e", "c">>, <<App(<<Stage("pa", <<PS(4, StrL("x3"))>>)>>)>>), PrintS(<<Var("o"), Var("c")>>)>>, <<"alog">>)}
 
+\* builtins that LOOK at the world (exists, read, len of a read) next to a later operand that CHANGES it: the value is the one at the point of evaluation
+Mk(p) == CallE("mk", <<StrL(p)>>)           \* writes the file, returns true
+Wr(p, d) == CallE("wr", <<StrL(p), StrL(d)>>) \* overwrites the file, returns its new content
+WorldPrelude == <<Func("mk", <<Param("p", "string")>>, <<"bool">>, <<WriteS(Var("p"), StrL("made")), RetS(<<T>>)>>),
+                  Func("wr", <<Param("p", "string"), Param("d", "string")>>, <<"string">>, <<WriteS(Var("p"), Var("d")), RetS(<<Var("d")>>)>>),
+                  Func("two", <<Param("a", "bool"), Param("b", "bool")>>, <<>>, <<PrintS(<<StrL("two"), Var("a"), Var("b")>>)>>),
+                  Func("twos", <<Param("a", "string"), Param("b", "string")>>, <<>>, <<PrintS(<<StrL("twos"), Var("a"), Var("b")>>)>>)>>
+WorldOrder ==
+  {CK("world/" \o nm[1], WorldPrelude \o <<WriteS(StrL("old.txt"), StrL("old"))>> \o nm[2], <<"fs">>)
+   : nm \in {<<"print-exists-mk", <<PrintS(<<ExistsE(StrL("n.txt")), Mk("n.txt"), ExistsE(StrL("n.txt"))>>)>>>>,
+              <<"args-exists-mk", <<ExprS(CallE("two", <<ExistsE(StrL("n.txt")), Mk("n.txt")>>)), ExprS(CallE("two", <<Mk("m.txt"), ExistsE(StrL("m.txt"))>>))>>>>,
+              <<"or-exists-mk", <<Print1(Lgc("||", ExistsE(StrL("n.txt")), Mk("n.txt"))), Print1(Lgc("&&", Not(ExistsE(StrL("k.txt"))), Mk("k.txt")))>>>>,
+              <<"cmp-exists-mk", <<Print1(CmpE("==", ExistsE(StrL("n.txt")), Mk("n.txt"))), Print1(CmpE("!=", Mk("k.txt"), ExistsE(StrL("k.txt"))))>>>>,
+              <<"def-exists-mk", <<Def(<<"a", "b", "c">>, <<ExistsE(StrL("n.txt")), Mk("n.txt"), ExistsE(StrL("n.txt"))>>), PrintS(<<Var("a"), Var("b"), Var("c")>>)>>>>,
+              <<"print-read-wr", <<PrintS(<<ReadE(StrL("old.txt")), Wr("old.txt", "new"), ReadE(StrL("old.txt"))>>)>>>>,
+              <<"args-read-wr", <<ExprS(CallE("twos", <<ReadE(StrL("old.txt")), Wr("old.txt", "new")>>)), ExprS(CallE("twos", <<Wr("old.txt", "newer"), ReadE(StrL("old.txt"))>>))>>>>,
+              <<"concat-read-wr", <<Print1(Bin("+", Bin("+", ReadE(StrL("old.txt")), Wr("old.txt", "new")), ReadE(StrL("old.txt"))))>>>>,
+              <<"cmp-read-wr", <<Print1(CmpE("==", ReadE(StrL("old.txt")), Wr("old.txt", "old"))), Print1(CmpE("==", ReadE(StrL("old.txt")), Wr("old.txt", "new")))>>>>,
+              <<"len-read-wr", <<PrintS(<<LenE(ReadE(StrL("old.txt"))), Wr("old.txt", "longer text"), LenE(ReadE(StrL("old.txt")))>>)>>>>,
+              <<"write-reads-itself", <<WriteS(StrL("old.txt"), Bin("+", ReadE(StrL("old.txt")), StrL("+x"))), WriteA(StrL("old.txt"), ReadE(StrL("old.txt")), T), Print1(ReadE(StrL("old.txt")))>>>>,
+              <<"slice-elems", <<Def1("sl", SliceLit("bool", <<ExistsE(StrL("n.txt")), Mk("n.txt"), ExistsE(StrL("n.txt"))>>)), PrintS(<<IndexE(Var("sl"), N(0)), IndexE(Var("sl"), N(1)), IndexE(Var("sl"), N(2))>>)>>>>,
+              <<"return-pair", <<Func("pair", <<>>, <<"bool", "bool">>, <<RetS(<<ExistsE(StrL("n.txt")), Mk("n.txt")>>)>>), Def(<<"a", "b">>, <<CallE("pair", <<>>)>>), PrintS(<<Var("a"), Var("b")>>)>>>>}}
 \* if / else-if chains: every condition of the chain is evaluated before any body; a nested if inside a body only when reached
 Chains ==
   {C("if1/" \o BS(p), <<If1(PB(1, BV(p)), <<L("then")>>)>>) : p \in Bools}
@@ -119,6 +141,6 @@ MixedArith == {C("mixarith/" \o nm[1], <<Def1("z", N(0)), Def1("one", N(1)), Pri
                           <<"f<f", CmpE("<", PI(1, N(5)), PI(1, N(5)))>>, <<"1<f", CmpE("<", N(1), PI(1, N(5)))>>, <<"s+empty", Bin("+", PS(1, StrL("a")), StrL(""))>>, <<"empty+s", Bin("+", StrL(""), PS(1, StrL("a")))>>,
                           <<"s==s", CmpE("==", PS(1, StrL("a")), PS(1, StrL("a")))>>, <<"notnot", Not(Not(PB(1, T)))>>, <<"b==true", CmpE("==", PB(1, T), T)>>, <<"true!=b", CmpE("!=", T, PB(1, F))>>,
                           <<"grp", Grp(Grp(PI(1, N(5))))>>, <<"itoa", Itoa(Bin("*", N(0), PI(1, N(5))))>>, <<"len", LenE(Bin("+", PS(1, StrL("ab")), StrL("")))>>}}
-All == MixedLogic \cup MixedArith \cup Exprs \cup Calls \cup Stores \cup World \cup Chains \cup Switches \cup Loops
+All == WorldOrder \cup MixedLogic \cup MixedArith \cup Exprs \cup Calls \cup Stores \cup World \cup Chains \cup Switches \cup Loops
 ASSUME ndJsonSerialize("fam.ndjson", SetToSeq(All))
 =============================================================================
